@@ -55,6 +55,32 @@ def showFail (f : Fail Rat) : String :=
   "q=(" ++ toString (ratToFloat f.x) ++ "," ++ toString (ratToFloat f.y) ++ ") exact=(" ++ ratStr f.x ++ "," ++ ratStr f.y
     ++ ") W=" ++ toString f.w ++ " F=" ++ toString f.f
 
+/-- squared distance from `q` to the segment `a b` (exact) -/
+def segDist2 (q a b : P Rat) : Rat :=
+  let d := b - a
+  let l2 := d.x * d.x + d.y * d.y
+  let t := if l2 == 0 then 0 else ((q - a).x * d.x + (q - a).y * d.y) / l2
+  let t := if t < 0 then 0 else if t > 1 then 1 else t
+  let c : P Rat := ⟨a.x + d.x * t, a.y + d.y * t⟩
+  (q - c).x * (q - c).x + (q - c).y * (q - c).y
+
+def ratAbs (x : Rat) : Rat := if x < 0 then -x else x
+
+/-- CLASSIFICATION ONLY (not part of the proved checker): a pure-overlap verdict is a
+`rounding-sliver` when the mid-point of EVERY overlapped gap lies within `scale · 2⁻²⁰` of a
+triangle edge, `scale` = largest coordinate magnitude of the output — the overlap is then thinner
+than what a few `f32` roundings of a computed vertex (an intersection point) can produce.  Any
+wider overlap keeps the class `pure-overlap`. -/
+def isRoundingSliver (inp : Input Rat) (fails : List (Fail Rat)) : Bool :=
+  let scale := inp.tris.foldl (fun m t =>
+    [t.1.x, t.1.y, t.2.1.x, t.2.1.y, t.2.2.x, t.2.2.y].foldl (fun m c => if ratAbs c > m then ratAbs c else m) m) (1 : Rat)
+  let eps := scale / 1048576
+  let eps2 := eps * eps
+  fails.all (fun f =>
+    let q : P Rat := ⟨f.x, f.y⟩
+    inp.tris.any (fun t =>
+      decide (segDist2 q t.1 t.2.1 ≤ eps2) || decide (segDist2 q t.2.1 t.2.2 ≤ eps2) || decide (segDist2 q t.2.2 t.1 ≤ eps2)))
+
 /-- run the checker; `clausePrefix` names the call site (e.g. `fill`) -/
 def verdict (clausePrefix : String) (checkDegenerate : Bool) (inp : Input Rat) : String :=
   let r := check inp
@@ -67,7 +93,7 @@ def verdict (clausePrefix : String) (checkDegenerate : Bool) (inp : Input Rat) :
     let (cls, f) := match unc, spur with
       | some f, _ => ("uncovered", f)
       | none, some f => ("spurious", f)
-      | none, none => ("pure-overlap", f0)
+      | none, none => (if isRoundingSliver inp r.fails then "rounding-sliver" else "pure-overlap", f0)
     "fail " ++ clausePrefix ++ "/" ++ modeName inp.mode ++ " " ++ cls ++ " " ++ showFail f
       ++ " nfails=" ++ toString r.fails.length
   | [] =>
